@@ -23,6 +23,9 @@ BF = "builtins::functions::"
 KINDS = None
 
 
+ARGS_NAMES = {"args"}
+
+
 def arity_value(c, n):
     """evaluate a condition over args.len() / args.is_empty() for len == n → True/False/None"""
     c = H.strip(c)
@@ -39,14 +42,14 @@ def arity_value(c, n):
                 return True
             return False if (l is False and r is False) else None
         l, r = H.strip(c["l"]), H.strip(c["r"])
-        if H.render(l) == "args.len()" and r.get("k") == "lit" and r["lk"] == "int":
+        if l.get("k") == "mcall" and l["m"] == "len" and H.render(H.strip(l["recv"])) in ARGS_NAMES and r.get("k") == "lit" and r["lk"] == "int":
             v = r["v"]
             return {"==": n == v, "!=": n != v, "<": n < v, "<=": n <= v, ">": n > v, ">=": n >= v}.get(op)
         return None
     if k == "un" and c["op"] == "!":
         v = arity_value(c["e"], n)
         return None if v is None else (not v)
-    if k == "mcall" and c["m"] == "is_empty" and H.render(c["recv"]) == "args":
+    if k == "mcall" and c["m"] == "is_empty" and H.render(H.strip(c["recv"])) in ARGS_NAMES:
         return n == 0
     return None
 
@@ -56,7 +59,7 @@ def arg_of(n, aliases):
     n = H.strip(n)
     if H.is_local(n) and H.local_id(n) in aliases:
         return aliases[H.local_id(n)]
-    if n.get("k") == "index" and H.render(H.strip(n["e"])) == "args":
+    if n.get("k") == "index" and H.render(H.strip(n["e"])) in ARGS_NAMES:
         i = H.strip(n["i"])
         if i.get("k") == "lit":
             return i["v"]
@@ -64,6 +67,7 @@ def arg_of(n, aliases):
 
 
 _F = None
+_helper_stack = []
 
 
 def helper_result(x, kinds, aliases):
@@ -202,6 +206,26 @@ def outcomes(body, n, kinds):
                 out.add("err")
                 return False
             if inner.get("k") in ("call", "mcall"):
+                # a checking helper of the repository that is handed the argument vector (`expect_one_arg(&args)?`):
+                # evaluate it for this arity / kind vector instead of assuming it may fail
+                g = _F.fn(inner.get("callee") or "") if _F is not None else None
+                gb = H.body_of(g) if g else None
+                if gb is not None and len(_helper_stack) < 3 and g["path"] not in _helper_stack:
+                    ps = g["hir"]["params"]
+                    al = [p.get("name") for p, a in zip(ps, inner.get("args", [])) if p.get("k") == "bind" and H.render(H.strip(a)) in ARGS_NAMES]
+                    if al:
+                        added = [a for a in al if a not in ARGS_NAMES]
+                        ARGS_NAMES.update(added)
+                        _helper_stack.append(g["path"])
+                        try:
+                            sub = outcomes(gb, n, kinds)
+                        finally:
+                            _helper_stack.pop()
+                            for a in added:
+                                ARGS_NAMES.discard(a)
+                        if "err" in sub:
+                            out.add("err")
+                        return "ok" in sub
                 out.add("err")
             return True
         if k == "loop":
